@@ -365,6 +365,11 @@ fn use_closed_handle(h: &Handle) -> Value {
         "set": c(&|| res_str(std::panic::catch_unwind(std::panic::AssertUnwindSafe(|| h.set(Bytes::from_static(b"after"), Bytes::from_static(b"x")))))),
         "get": c(&|| res_str(std::panic::catch_unwind(std::panic::AssertUnwindSafe(|| h.get(Bytes::from_static(b"k0")))))),
         "del": c(&|| res_str(std::panic::catch_unwind(std::panic::AssertUnwindSafe(|| h.del(Bytes::from_static(b"k0")))))),
+        // keys that are not stored: never written, the empty key, one deleted before the close
+        "get_absent": c(&|| res_str(std::panic::catch_unwind(std::panic::AssertUnwindSafe(|| h.get(Bytes::from_static(b"never-written")))))),
+        "get_empty": c(&|| res_str(std::panic::catch_unwind(std::panic::AssertUnwindSafe(|| h.get(Bytes::new()))))),
+        "get_deleted": c(&|| res_str(std::panic::catch_unwind(std::panic::AssertUnwindSafe(|| h.get(Bytes::from_static(b"gone")))))),
+        "del_absent": c(&|| res_str(std::panic::catch_unwind(std::panic::AssertUnwindSafe(|| h.del(Bytes::from_static(b"never-written")))))),
         "merge": c(&|| res_str(std::panic::catch_unwind(std::panic::AssertUnwindSafe(|| h.verif_merge())))),
         "sync": c(&|| res_str(std::panic::catch_unwind(std::panic::AssertUnwindSafe(|| h.verif_sync())))),
     })
@@ -390,7 +395,8 @@ fn close_mode(inputs: &[Value], si: usize, sn: usize, out: &mut TraceOut, pend: 
         disarm();
         let mut ev = json!({"ev": "close", "kind": kind, "input": inp});
         match kind.as_str() {
-            "idle" | "at-point" | "writer-busy" => {
+            // (idle-busy: as idle, but with timers so short that background work is in flight at any moment)
+            "idle" | "idle-busy" | "at-point" | "writer-busy" => {
                 let cfgv = inp.get("config").cloned().unwrap_or(json!({}));
                 // no worker of an earlier scenario may still be around: "the worker is gone" below must
                 // mean THIS store's worker (an operation it had in flight at the drop may finish first)
@@ -402,6 +408,8 @@ fn close_mode(inputs: &[Value], si: usize, sn: usize, out: &mut TraceOut, pend: 
                 for j in 0..6 {
                     let _ = h.set(Bytes::from(format!("k{}", j % 3)), Bytes::from(format!("v{j}")));
                 }
+                let _ = h.set(Bytes::from_static(b"gone"), Bytes::from_static(b"x"));
+                let _ = h.del(Bytes::from_static(b"gone"));
                 // the worker thread is named only once it runs
                 wait_until(|| bg_threads() > base_bg, Duration::from_millis(500));
                 let mut inflight: Option<std::thread::JoinHandle<String>> = None;
@@ -622,6 +630,18 @@ fn bg_mode(inputs: &[Value], si: usize, sn: usize, out: &mut TraceOut, pend: &Pe
             if pattern == "frag-fault" {
                 shim::start(&dir, false);
             }
+            // the local wall-clock hour the scenario runs at (the policy must not depend on it)
+            if let Some(hour) = inp["hour"].as_i64() {
+                let mut t: libc::time_t = 0;
+                let mut tm: libc::tm = unsafe { std::mem::zeroed() };
+                unsafe {
+                    libc::time(&mut t);
+                    libc::localtime_r(&t, &mut tm);
+                }
+                // aim at hh:10 of the wanted hour
+                let now_s = tm.tm_hour as i64 * 3600 + tm.tm_min as i64 * 60 + tm.tm_sec as i64;
+                shim::set_clock_skew(hour * 3600 + 600 - now_s);
+            }
             let kv = make_config(&dir, &cfg).open().expect("open");
             let h = kv.get_handle();
             let val = |n: usize| Bytes::from(vec![b'v'; n]);
@@ -661,6 +681,18 @@ fn bg_mode(inputs: &[Value], si: usize, sn: usize, out: &mut TraceOut, pend: &Pe
                         let _ = h.set(Bytes::from(format!("k{j}")), val(1));
                     }
                 }
+                // ten fresh keys, nothing dead; the task checks (and finds nothing) for a few intervals; then
+                // eight of them are deleted: dead fraction 16/18 > 0.5, crossed by deletes alone
+                "late-del" => {
+                    for j in 0..10 {
+                        let _ = h.set(Bytes::from(format!("k{j}")), val(1));
+                    }
+                    std::thread::sleep(Duration::from_millis(interval * 3 + 50));
+                    ev["merges_before_crossing"] = json!(points("merge.selected").len());
+                    for j in 0..8 {
+                        let _ = h.del(Bytes::from(format!("k{j}")));
+                    }
+                }
                 // as "frag", and the first background merge fails (its hint-file create): the trigger is
                 // still exceeded afterwards, so the merge must be tried again within the next interval
                 "frag-fault" => {
@@ -691,6 +723,7 @@ fn bg_mode(inputs: &[Value], si: usize, sn: usize, out: &mut TraceOut, pend: &Pe
             ev["hint_files"] = json!(list_files(&dir, "hint").len());
             ev["observed_ms"] = json!(now_ms());
             end_life(kv, &mut ev, &cfg);
+            shim::set_clock_skew(0);
             if pattern == "frag-fault" {
                 shim::stop();
             }
@@ -945,7 +978,12 @@ fn conc_mode(inputs: &[Value], seed: u64, si: usize, sn: usize, out: &mut TraceO
                     None
                 };
                 let keys: Vec<String> = (0..nkeys).map(|k| format!("key{k}")).collect();
+                let clock = inp["clock"].as_bool().unwrap_or(false);
                 for w in 0..windows {
+                    // the wall clock is stepped back further and further between windows
+                    if clock && w % 2 == 1 {
+                        shim::set_clock_skew(-3600 * (w as i64 + 1));
+                    }
                     let mut init = vec![];
                     for k in &keys {
                         let h3 = h.clone();
@@ -1018,6 +1056,7 @@ fn conc_mode(inputs: &[Value], seed: u64, si: usize, sn: usize, out: &mut TraceO
                     let (h3, kb) = (h.clone(), k.clone().into_bytes());
                     fin.push(json!({"k": k, "res": with_watchdog(move || get_res(&h3, &kb), Duration::from_secs(10))}));
                 }
+                shim::set_clock_skew(0);
                 out.emit(&json!({"ev": "conc", "kind": "stress-final", "final": fin}));
                 drop(kv);
             }
